@@ -333,7 +333,7 @@ static void gen_case(struct tcase *c, long idx)
         c->volume = true; c->tp = gi == 0 ? TP_UX : TP_TCP; c->mode = M_NB; c->bidir = false; c->endm = END_QUIESCE;
         c->size_class = 3; c->nsend = 34000; c->cap_class = 0; c->plan_class = 0; c->plan_setup = false; c->odd_sizes = false;
     }
-    if (prop == P_C03 && c->mode != M_NB && c->mode != M_MIXR && vrnd_p(&r, 70)) {
+    if ((prop == P_C03 || prop == P_C02) && c->mode != M_NB && c->mode != M_MIXR && vrnd_p(&r, 70)) {
         if (vrnd_p(&r, 75)) { c->eintr_at = 1 + (int)vrnd_n(&r, 10); if (c->plan_class == 0 || c->plan_class == 1) c->plan_class = 2 + (int)vrnd_n(&r, 3); }
         else c->real_signal = true;
     }
@@ -413,7 +413,7 @@ static void one_case(long idx, void *arg)
     sd[0].budget = c.nsend; sd[1].budget = c.bidir ? c.nsend : 0;
     sd[0].single = sd[1].single = c.mode == M_NB;
     sd[0].allow_other_data_after_sealed = sd[1].allow_other_data_after_sealed = vrnd_p(&r, 30);
-    bool complete_expected[2] = { true, true };
+    bool complete_expected[2] = { true, true }, owed_despite_error[2] = { false, false };
     struct thr ts = { 0 }, tr = { 0 };
     bool ok = true;
 
@@ -431,6 +431,14 @@ static void one_case(long idx, void *arg)
             if (c.volume ? (steps % 97) == 0 : (prop == P_C17 || (prop == P_C03 && (steps % 8) == 0))) { check_counters(sd[0].e, sd[1].e, 0, false); check_counters(sd[1].e, sd[0].e, 1, false); }
             if (vviol_count() > 0) break;
         }
+        if (c.endm == END_CLOSE && !vviol_count() && sd[0].e->s && complete_expected[0] && vrnd_p(&r, 60)) {
+            /* the last thing the sender does before it flushes and closes meets a socket that takes nothing for a few more writes: what it
+             * was told is accepted must still be on the wire before xcm_finish says 0 */
+            sd[0].e->plan.forced_refusals = 2 + (int)vrnd_n(&r, 3);
+            int rc = do_send(&sd[0], &c, &r, maxmsg);
+            if (rc == -1) complete_expected[0] = false;
+            vobs(rc == 1 ? "last_send_accepted_while_writes_refused" : "last_send_refused_while_writes_refused", 1);
+        }
         A.plan.quiet = true; B.plan.quiet = true;
         if (c.endm == END_QUIESCE) {
             bool q = drain(sd, &c, &r, false);
@@ -442,10 +450,14 @@ static void one_case(long idx, void *arg)
             int fr = -1;
             for (int k = 0; k < 200000; k++) { fr = vx_finish(s->e); if (fr == 0 || errno != EAGAIN) break; for (int j = 0; j < 16; j++) if (do_recv(&sd[1], &c, &r) <= 0) break; if (k > 200) { struct pollfd none; vs_real_poll(&none, 0, 1); } }
             if (fr != 0) complete_expected[0] = false;
+            long sender_inq = 0; veng_kernel_idle(s->e, NULL, &sender_inq, NULL);        /* unread input at close makes the kernel reset the connection: then an error at the receiver is TCP's doing */
             vx_close(s->e);
             bool q = drain(sd, &c, &r, true);
             if (!q) { vobs("drain_gave_up", 1); ok = false; }
-            if (sd[1].e->term != 1) { complete_expected[0] = false; vobs("close_seen_as_error", 1); } else vobs("close_seen_as_zero", 1);
+            if (sd[1].e->term == 2 && complete_expected[0] && fr == 0 && sender_inq == 0 && !sd[1].e->n_att) {
+                /* xcm_finish said 0, nothing was unread on the sender's side, the receiver never sent: everything accepted is owed whatever the way the end was reported */
+                vobs("close_seen_as_error_after_clean_flush", 1); owed_despite_error[0] = true;
+            } else if (sd[1].e->term != 1) { complete_expected[0] = false; vobs("close_seen_as_error", 1); } else vobs("close_seen_as_zero", 1);
         }
     } else {
         /* threaded modes, unidirectional sd[0] -> sd[1], sender closes at the end */
@@ -498,7 +510,7 @@ static void one_case(long idx, void *arg)
         for (int i = 0; i < 2; i++) {
             struct vep *tx = sd[i].e, *rx = sd[i].peer;
             if (tx->n_att == 0) continue;
-            bool complete = complete_expected[i] && !tx->conn_error_seen && !rx->conn_error_seen && rx->term != 2;
+            bool complete = complete_expected[i] && !tx->conn_error_seen && (owed_despite_error[i] || (!rx->conn_error_seen && rx->term != 2));
             veng_check_delivery(idx, tx, rx, complete, ctx);
             if (complete) vobs("complete_directions", 1); else vobs("prefix_only_directions", 1);
             vobs("messages_accepted", tx->n_ok); vobs("messages_delivered", rx->n_rx);
